@@ -1,15 +1,15 @@
-SPECIFICATION MCSpec
+SPECIFICATION ShapeSpec
 CONSTANTS
-  Actor = {"a", "b", "c"}
+  Actor = {"a", "b", "c", "e"}
   Creator = "a"
-  Initial <- InitialABCm
-  Kinds = {"add", "remove"}
-  AccessArgs <- ArgsManage
+  Initial <- InitialACb
+  Kinds = {"add", "remove", "promote", "demote"}
+  AccessArgs <- ArgsPRM
   Replica = {}
-  MaxOps = 4
+  MaxOps = 6
   MaxRejected = 0
   ShapeAttempts = FALSE
-  ShapeTail = "none"
+  ShapeTail = "join2"
   Defect_TieBreakByPartialCmp = FALSE
   Defect_NoopModifyUnchecked = FALSE
   Defect_RecreateAccepted = FALSE
